@@ -130,3 +130,28 @@ Proof.
   - intros ([i x] & <- & Hin). exists i, x. split; [exact Hin | reflexivity].
   - intros (i & x & Hin & ->). exists (i, x). split; [reflexivity | exact Hin].
 Qed.
+
+(* the call forms of the expression language are these functions of the operands' values,
+   for every operand expression, scope and fuel *)
+Theorem call_operator_is_call_data fuel rho f a c k :
+  eval fuel rho f = Ok (D (VSet c)) -> eval fuel rho a = Ok (D k) ->
+  eval (S fuel) rho (ECall f a) =
+    match call_data c k with CROne v => Ok (D v) | CRNotKeyed => Unspec | _ => Err end.
+Proof. intros Hf Ha. cbn [eval evalF]. rewrite Hf, Ha. reflexivity. Qed.
+
+Theorem safe_call_operator_is_call_data fuel rho f a d c k :
+  eval fuel rho f = Ok (D (VSet c)) -> eval fuel rho a = Ok (D k) ->
+  eval (S fuel) rho (ESafeCall f a d) =
+    match call_data c k with
+    | CROne v => Ok (D v)
+    | CRNone => eval fuel rho d
+    | CRNotKeyed => Unspec
+    | CRMany => Err
+    end.
+Proof. intros Hf Ha. cbn [eval evalF]. rewrite Hf, Ha. reflexivity. Qed.
+
+(* the fallback of ?: is evaluated only when no value is paired with the key *)
+Corollary safe_call_fallback_only_when_absent fuel rho f a d c k v :
+  eval fuel rho f = Ok (D (VSet c)) -> eval fuel rho a = Ok (D k) -> call_data c k = CROne v ->
+  eval (S fuel) rho (ESafeCall f a d) = Ok (D v).
+Proof. intros Hf Ha Hc. rewrite (safe_call_operator_is_call_data fuel rho f a d c k Hf Ha), Hc. reflexivity. Qed.
